@@ -450,6 +450,63 @@ func checkC13(e *Engine, r *Report) {
 			}
 			r.MinInstances("error exits of TA Reconfigure after the state change", nExits, 4)
 		}
+		// success installs the given configuration: the revert by re-application (and every later decision,
+		// which reads the package-level options) depends on Reconfigure(cfg) == nil ⇒ options == cfg
+		cfgParamDerived := func(v ssa.Value) bool {
+			ok := false
+			Origins(v, func(x ssa.Value) bool {
+				if ta, isTA := x.(*ssa.TypeAssert); isTA && paramIndex(ta.X) == 1 {
+					ok = true
+					return true
+				}
+				if ex, isEx := x.(*ssa.Extract); isEx {
+					if ta, isTA := ex.Tuple.(*ssa.TypeAssert); isTA && paramIndex(ta.X) == 1 {
+						ok = true
+						return true
+					}
+				}
+				return false
+			})
+			return ok
+		}
+		for _, gname := range []string{"opt", "defaultPrio"} {
+			g := e.Global(pkgTA, gname)
+			if g == nil {
+				r.Undecided("R1:ta-success-installs#"+gname, "R12 rollback", "the topology-aware options global exists", e.Pos(fn.Pos()), fn, "global "+gname+" not found")
+				continue
+			}
+			installs := func(in ssa.Instruction) bool {
+				st, ok := in.(*ssa.Store)
+				if !ok || st.Addr != ssa.Value(g) {
+					return false
+				}
+				if gname == "opt" {
+					return cfgParamDerived(st.Val)
+				}
+				// defaultPrio = cfg.DefaultCPUPriority.Value()
+				okv := false
+				Origins(st.Val, func(x ssa.Value) bool {
+					if c, isC := x.(*ssa.Call); isC {
+						for _, a := range callArgs(c) {
+							if f, base := loadedField(a); f != nil && cfgParamDerived(base) {
+								okv = true
+							}
+							if fa, isFA := a.(*ssa.FieldAddr); isFA && cfgParamDerived(fa.X) {
+								okv = true
+							}
+						}
+					}
+					return okv
+				})
+				return okv
+			}
+			r.MustPass("R1:ta-success-installs#"+gname, "R12 rollback", "every successful return of Reconfigure(cfg) has installed cfg as the effective "+gname+" (no shortcut may skip it: the resource manager reverts a rejected update by re-applying the previous configuration)",
+				fn, nil, e.maySucceed, installs, nil)
+		}
+		if initialize != nil {
+			r.MustPass("R1:ta-success-rebuilds", "R12 rollback", "every successful return of Reconfigure has rebuilt the pools (initialize) from the given configuration", fn, nil, e.maySucceed,
+				func(in ssa.Instruction) bool { return e.IsCallTo(in, fset(initialize)) }, nil)
+		}
 	}
 	// resource manager: revert on failure, record on success
 	if rec := r.Anchor(pkgRM, "resmgr.reconfigure"); rec != nil {
